@@ -135,3 +135,4 @@ Print Assumptions C13_refine_n.
 Print Assumptions C13_refine_n_axis.
 Print Assumptions C13_refine_n_axis_admissible.
 Print Assumptions C13_amid_ok.
+Print Assumptions C13_nonvacuous.
